@@ -396,4 +396,7 @@ def run(ctx):
     import c14
     import c16
     ctx.include("C06.8", "prerequisite shared with C16: the field operations the constants are computed with return canonical values, test their divisors, bound their exponents, and the comparison family realises the right truth functions", c16.rule_divisors, c16.rule_exponents, c16.rule_canonical, c16.rule_comparisons)
+    import c11
+
+    ctx.include("C06.9", "a Num2Bits / Bits2Num size judged `less than the prime size` really is: the size test is strict and the prime sizes are those of the field (shared with C11.2/C11.3)", lambda c: c11.rule_thresholds(c, c11.rule_primes(c) or {}))
     ctx.include("C06.7", "prerequisite shared with C14: phi insertion is iterated, renaming order and scope pairing, phi identity (a missing phi makes a merged variable look constant)", c14.rule_phi_insertion, c14.rule_phis_and_locals, c14.rule_plumbing)
